@@ -36,7 +36,7 @@ def run(rep):
     rep.rule('R06.2', 'the three _uncached_* walks take their registries from '
              'self._registry.ro only: lookup forward/first-hit (nearest '
              'registry wins), lookupAll reverse/last-wins, subscriptions '
-             'reverse/append (base registries first)', floor=20)
+             'reverse/append (base registries first)', floor=12)
     rep.rule('R06.3', 'sub-registry links: AdapterRegistry._setBases unlinks '
              'from every dropped base, links to every new base, then runs the '
              'base implementation; the link table is never discarded on a live '
@@ -84,15 +84,18 @@ def run(rep):
               % ('is' if okpull else 'is NOT'), construct='pull', node=vch)
 
     # ---- R06.2 -------------------------------------------------------------
-    shared.check_registry_walk(
+    from . import sem
+    sem.registry_walk_spec(
         rep, 'R06.2', find_def(mod, 'AdapterLookupBase._uncached_lookup'),
-        'fwd', '_lookup', True, tail_args=['name', '0', 'order'])
-    shared.check_registry_walk_collect(
+        '_lookup', '_adapters', 'fwd', True, ['name', '0', 'len(required)'], None)
+    sem.registry_walk_spec(
         rep, 'R06.2', find_def(mod, 'AdapterLookupBase._uncached_lookupAll'),
-        '_lookupAll', '_adapters')
-    shared.check_registry_walk_collect(
+        '_lookupAll', '_adapters', 'rev', False, ['{}', '0', 'len(required)'],
+        'tuple({}.items())')
+    sem.registry_walk_spec(
         rep, 'R06.2', find_def(mod, 'AdapterLookupBase._uncached_subscriptions'),
-        '_subscriptions', '_subscribers')
+        '_subscriptions', '_subscribers', 'rev', False,
+        ["''", '[]', '0', 'len(required)'], '[]')
     # ro.ro(self) computes over __bases__: the C3 entry point is used
     rep.check('R06.2', 'BaseAdapterRegistry._setBases',
               bool(find_all(sb, 'self.ro = ro.ro(self)', 'exec')),
